@@ -27,13 +27,17 @@
   * `u_checked_neg_proj`: `BUint::checked_neg` is written `if self.is_zero() {Some(self)} else {None}`
       (and modelled so); it equals the projection of `overflowing_neg`.
 
-  NOT yet covered (need the shift / compare models owned by other modules): `midpoint`, `abs_diff`.
+  * midpoint       : `u_midpoint_spec`, `i_midpoint_spec` — in debug and in release builds (`dbg`) the
+      function never panics/overflows; value = floor((a+b)/2) for BUint, (a+b)/2 rounded toward zero
+      (`Int.tdiv`) for BInt.  (Model/Misc.lean; needs `2 ≤ w` so that `shr(1)` is in range.)
+  * abs_diff       : `u_abs_diff`, `i_abs_diff` — the (unsigned) result is `|a - b|`.
 
   Hypotheses: the signed theorems need `2 ≤ w` (signed digit arithmetic; every real digit has w ≥ 8) and
   `1 ≤ n`; unsigned add/sub need nothing beyond well-formedness, the other unsigned ones `1 ≤ w`, `1 ≤ n`
   (the constant ONE must exist).
 -/
 import Bnum.Lemmas.AddSub2
+import Bnum.Lemmas.Misc
 
 namespace Bnum.C01
 open Bnum
@@ -538,6 +542,40 @@ theorem i_saturating_sub_side {w n : Nat} {a b : List Nat} (hw : 1 ≤ w) (hn : 
   II.sub_overflow_side hw hn ha hb hov
 example : 1 ≤ 8 ∧ 1 ≤ 3 ∧ WF 8 3 [0, 0, 128] ∧ WF 8 3 [5, 0, 0] ∧
     ¬ repS (M 8 3) (S 8 [0, 0, 128] - S 8 [5, 0, 0]) := by decide
+
+/-! ## midpoint and abs_diff (Model/Misc.lean) -/
+
+/-- `BUint::midpoint`: never panics (either build profile), rounds down -/
+theorem u_midpoint_spec {w n : Nat} {a b : List Nat} (dbg : Bool) (hw : 2 ≤ w) (hn : 1 ≤ n)
+    (ha : WF w n a) (hb : WF w n b) :
+    ∃ r, UI.midpoint dbg w a b = Outcome.ok r ∧ WF w n r ∧ U w r = (U w a + U w b) / 2 :=
+  UI.midpoint_spec dbg hw hn ha hb
+example : 2 ≤ 8 ∧ 1 ≤ 3 ∧ WF 8 3 [255, 255, 255] ∧ WF 8 3 [254, 255, 255] ∧
+    UI.midpoint true 8 [255, 255, 255] [254, 255, 255] = Outcome.ok [254, 255, 255] := by decide
+
+/-- `BInt::midpoint`: never panics (either build profile), rounds toward zero -/
+theorem i_midpoint_spec {w n : Nat} {a b : List Nat} (dbg : Bool) (hw : 2 ≤ w) (hn : 1 ≤ n)
+    (ha : WF w n a) (hb : WF w n b) :
+    ∃ r, II.midpoint dbg w a b = Outcome.ok r ∧ WF w n r ∧ S w r = Int.tdiv (S w a + S w b) 2 :=
+  II.midpoint_spec dbg hw hn ha hb
+example : 2 ≤ 8 ∧ 1 ≤ 3 ∧ WF 8 3 [255, 255, 255] ∧ WF 8 3 [252, 255, 255] ∧
+    II.midpoint true 8 [255, 255, 255] [252, 255, 255] = Outcome.ok [254, 255, 255] ∧
+    II.midpoint false 8 [0, 0, 128] [255, 255, 127] = Outcome.ok [0, 0, 0] := by decide
+
+/-- `BUint::abs_diff` -/
+theorem u_abs_diff {w n : Nat} {a b : List Nat} (ha : WF w n a) (hb : WF w n b) :
+    WF w n (UI.absDiff w a b) ∧ U w (UI.absDiff w a b) = ((U w a : Int) - U w b).natAbs :=
+  UI.absDiff_spec ha hb
+example : WF 8 3 [3, 0, 0] ∧ WF 8 3 [255, 255, 127] ∧
+    UI.absDiff 8 [3, 0, 0] [255, 255, 127] = [252, 255, 127] := by decide
+
+/-- `BInt::abs_diff` (returns a `BUint`) -/
+theorem i_abs_diff {w n : Nat} {a b : List Nat} (hw : 1 ≤ w) (hn : 1 ≤ n)
+    (ha : WF w n a) (hb : WF w n b) :
+    WF w n (II.absDiff w a b) ∧ U w (II.absDiff w a b) = (S w a - S w b).natAbs :=
+  II.absDiff_spec hw hn ha hb
+example : 1 ≤ 8 ∧ 1 ≤ 3 ∧ WF 8 3 [0, 0, 128] ∧ WF 8 3 [255, 255, 127] ∧
+    II.absDiff 8 [0, 0, 128] [255, 255, 127] = [255, 255, 255] := by decide
 /-- `BUint::checked_neg` is written (and modelled) with an `is_zero` test; it is nevertheless the
     projection of `overflowing_neg` like every other checked form -/
 theorem u_checked_neg_proj {w n : Nat} {a : List Nat} (hw : 1 ≤ w) (hn : 1 ≤ n) (ha : WF w n a) :
